@@ -43,4 +43,32 @@ def eqinfo(eq, mesh, spec):
     return out
 
 
-EXTRACTORS = {"eqinfo": eqinfo, "regions": regions, "meshmeta": meshmeta}
+def assemble(mesh, name):
+    """collect a per-region MultiLocationArray attribute into global arrays (centre, xlow, ylow) like addFromRegions"""
+    out = {}
+    nx, ny = mesh.nx, mesh.ny
+    for loc in ("centre", "xlow", "ylow"):
+        out[loc] = np.full((nx, ny), np.nan)
+    for region in mesh.regions.values():
+        if not hasattr(region, name):
+            return None
+        f = getattr(region, name)
+        sl = mesh.region_indices[region.myID]
+        if f._centre_array is not None:
+            out["centre"][sl] = f.centre
+        if f._xlow_array is not None:
+            out["xlow"][sl] = f.xlow[:-1, :]
+        if f._ylow_array is not None:
+            out["ylow"][sl] = f.ylow[:, :-1]
+    return out
+
+
+def beta(eq, mesh, spec):
+    return {n: assemble(mesh, n) for n in ("cosBeta", "tanBeta", "sinBeta")}
+
+
+def bpsign(eq, mesh, spec):
+    return {rid: float(r.bpsign) for rid, r in mesh.regions.items()}
+
+
+EXTRACTORS = {"beta": beta, "bpsign": bpsign, "eqinfo": eqinfo, "regions": regions, "meshmeta": meshmeta}
